@@ -78,6 +78,13 @@ MODES = {
     # exception objects that are falsy (an error carrying an empty list of problems; one that defines __bool__)
     'FalsyLen': "class Problems(Exception):\n    def __init__(self, items):\n        super().__init__(items)\n        self.items = items\n    def __len__(self):\n        return len(self.items)\nraise Problems([])",
     'FalsyBool': "class Quiet(Exception):\n    def __bool__(self):\n        return False\nraise Quiet('q')",
+    # exception classes that resist being handled: no new attributes, no attribute access at all, a class without a name
+    'FrozenSetattr': "class Frozen(Exception):\n    def __setattr__(self, k, v):\n        raise AttributeError('frozen')\nraise Frozen('x')",
+    'Slots': "class Slotted(Exception):\n    __slots__ = ()\nraise Slotted('x')",
+    'EqRaises': "class NoEq(Exception):\n    def __eq__(self, o):\n        raise RuntimeError('eq')\n    __hash__ = None\nraise NoEq('x')",
+    'ArgsProp': "class NoArgs(Exception):\n    @property\n    def args(self):\n        raise RuntimeError('args')\nraise NoArgs('x')",
+    'HostileGetattr': "class Closed(Exception):\n    def __getattribute__(self, k):\n        raise RuntimeError('no ' + k)\nraise Closed('x')",
+    'HostileMetaName': "class Meta(type):\n    @property\n    def __name__(cls):\n        raise RuntimeError('name')\nclass Nameless(Exception, metaclass=Meta):\n    pass\nraise Nameless('x')",
     'Empty': "raise Exception()", 'NonStrArg': "raise Exception(5, [1])",
     'Chained': "try:\n    1/0\nexcept ZeroDivisionError as e:\n    raise ValueError('c') from e",
     'BareRaise': "raise", 'RaiseInt': "raise 5",
@@ -164,6 +171,11 @@ def perform(entry, main):
     return sb_cmds.evaluate('target()')
 
 
+def cls_name(obj):
+    """the name of obj's class, also when the class (or its metaclass) makes `__name__` unreadable"""
+    return type.__dict__['__name__'].__get__(type(obj))
+
+
 def reference_outcome(code, filename='answer.py'):
     """What plain CPython does with this source: (exception class name or None, student line or None)."""
     saved = sys.stdout
@@ -175,12 +187,15 @@ def reference_outcome(code, filename='answer.py'):
         finally:
             sys.stdout = saved
     except BaseException as e:   # noqa
-        if isinstance(e, SyntaxError) and e.__traceback__ is not None and \
-                not [f for f in traceback.extract_tb(e.__traceback__) if f.filename == filename]:
-            return type(e).__name__, e.lineno
-        tb = traceback.extract_tb(e.__traceback__)
+        # (a student's exception class may refuse every attribute access: only its type and the interpreter's own
+        # record of the traceback are touched)
+        e_tb = sys.exc_info()[2]
+        if issubclass(type(e), SyntaxError) and e_tb is not None and \
+                not [f for f in traceback.extract_tb(e_tb) if f.filename == filename]:
+            return cls_name(e), e.lineno
+        tb = traceback.extract_tb(e_tb)
         # "raised on a student line": the innermost frame belongs to the student's file
-        return type(e).__name__, (tb[-1].lineno if tb and tb[-1].filename == filename else None)
+        return cls_name(e), (tb[-1].lineno if tb and tb[-1].filename == filename else None)
     return None, None
 
 
